@@ -63,6 +63,8 @@ class Func(object):
                     names.add(n.id)
                 elif isinstance(n, ast.ExceptHandler) and n.name:
                     names.add(n.name)
+                elif isinstance(n, (ast.FunctionDef, ast.ClassDef)):
+                    names.add(n.name)           # nested definitions are locals too
             self._locals = names
         return self._locals
 
